@@ -74,10 +74,11 @@ Definition timed (o : op) : bool :=
   | Melody _ _ => true
   end.
 
-(* the guard the proof forces: a beep must run at least once, a melody must have a non-empty score *)
+(* the only condition left on a timed call: a melody must have a (non-empty) score in the table - a table
+   property, true of every name the parser accepts (C16_accepted_melody_in_guard).  A beep needs no condition:
+   it silences the pin after its loop whatever the count (the former finding F-C16-beep-zero-keeps-tone). *)
 Definition silent_guard (tbl : list (text * score)) (o : op) : bool :=
   match o with
-  | Beep _ _ _ times => 1 <=? c_int times
   | Melody name _ => match tlookup name tbl with Some (_, _ :: _) => true | _ => false end
   | _ => true
   end.
@@ -139,10 +140,10 @@ Definition beats_nonneg (seq : list (Q * Q)) : bool := forallb (fun fb => qle q0
    the last tone the call sounds; unchanged if it sounds none *)
 Definition last_after (tbl : list (text * score)) (st : bz) (o : op) : Q :=
   match o with
-  | PlayTone f _ => if qlt q0 f then f else b_last st
+  | PlayTone f _ => if qle qhalf f then f else b_last st
   | Stop => b_last st
   | Beep f _ _ times =>
-      let target := clamp0 (match f with Some q => q | None => b_last st end) in
+      let target := clamph (match f with Some q => q | None => b_last st end) in
       if qlt q0 target && (1 <=? c_int times) then target else b_last st
   | Sweep s e _ steps =>
       last (positives (sweep_freqs (clamp0 s) (clamp0 e) (Z.max 1 (c_int steps)))) (b_last st)
@@ -178,40 +179,35 @@ Definition table_le (M : Q) (tbl : list (text * score)) : bool :=
 Definition tone_le (T : Z) (e : ev) : Prop :=
   match e with Tone _ t => 0 <= t <= T | _ => True end.
 
-(* ---- tone(pin, 0): a frequency in (0, 1/2) is positive, passes every `> 0.0f` test of the firmware and
-   is rounded to tone(pin, 0).  [audible_arg f]: f is not in that interval ---- *)
+(* ---- tone(pin, 0).  A frequency below 1/2 would be rounded to tone(pin, 0); the firmware treats it as silence
+   at every site that computes a frequency (play_tone, beep, each step of a sweep).  The notes of a melody come
+   from the score table as they are, so the table must not hold a note in (0, 1/2) ([audible_arg]; checked on
+   the generated table, C16_generated_melodies_in_half_guard) ---- *)
 Definition audible_arg (f : Q) : bool := qle f q0 || qle qhalf f.
-Definition half_guard (tbl : list (text * score)) (last : Q) (o : op) : bool :=
+Definition half_guard (tbl : list (text * score)) (o : op) : bool :=
   match o with
-  | PlayTone f _ => audible_arg f
-  | Stop => true
-  | Beep (Some f) _ _ _ => audible_arg f
-  | Beep None _ _ _ => audible_arg last
-  | Sweep s e _ _ => (qle s q0 && qle e q0) || (qle qhalf s && qle qhalf e)
   | Melody name _ =>
       match tlookup name tbl with
       | Some (_, seq) => forallb (fun fb => audible_arg (fst fb)) seq
       | None => true
       end
-  end.
-
-(* ---- "every sound is bounded": the time a call may spend in delay(), from its arguments alone ---- *)
-Definition nonneg_durations (o : op) : bool :=
-  match o with
-  | PlayTone _ (Some d) => qle q0 d
-  | Beep _ on off _ => qle q0 on && qle q0 off
-  | Sweep _ _ d _ => qle q0 d && (Qfloor d <? 2 ^ 24)      (* below 2^24 ms: exactly a float *)
   | _ => true
   end.
+Definition table_audible (tbl : list (text * score)) : bool :=
+  forallb (fun kv => forallb (fun fb => audible_arg (fst fb)) (snd (snd kv))) tbl.
+
+(* ---- "every sound is bounded": the time a call may spend in delay(), from its arguments alone.  A negative
+   duration counts as zero ([c_ulong]) ---- *)
+Definition qmax0 (d : Q) : Q := if qlt q0 d then d else 0%Q.
 Definition duration_bound (tbl : list (text * score)) (o : op) : Q :=
   match o with
-  | PlayTone _ (Some d) => d
+  | PlayTone _ (Some d) => qmax0 d
   | PlayTone _ None => 0
   | Stop => 0
   | Beep _ on off times =>
       let n := Z.max 0 (c_int times) in
-      inject_Z (n * Qfloor on + Z.max 0 (n - 1) * Qfloor off)
-  | Sweep _ _ d _ => d
+      inject_Z (n * c_ulong on + Z.max 0 (n - 1) * c_ulong off)
+  | Sweep _ _ d _ => qmax0 d
   | Melody name tempo =>
       match tlookup name tbl with
       | Some (t0, seq) => beats_total seq * (Qmake 60000 1 / eff_tempo t0 tempo)
@@ -219,13 +215,5 @@ Definition duration_bound (tbl : list (text * score)) (o : op) : Q :=
       end
   end%Q.
 
-(* ---- calls that emit no code at all: beep with trunc(times) < 1, melody without (or with an empty) score *)
+(* ---- calls that emit no code at all: a melody without (or with an empty) score ---- *)
 Definition noop_call (tbl : list (text * score)) (o : op) : bool := timed o && negb (silent_guard tbl o).
-
-(* the same guard for whole call sequences: a beep without argument needs no condition of its own, because
-   the last frequency stays outside (0, 1/2) when default_frequency and every other argument are *)
-Definition half_guard_static (tbl : list (text * score)) (o : op) : bool :=
-  match o with
-  | Beep None _ _ _ => true
-  | _ => half_guard tbl q0 o
-  end.
